@@ -248,7 +248,11 @@ func (g *anteG) oracleTx() {
 	if r.P(1, 8) {
 		// two oracle messages in one transaction
 		m2 := g.oracleMsg(r.N(world.NVal), feeder)
-		m = m + "|" + m2
+		if r.P(1, 2) {
+			m = m + "|" + m2
+		} else {
+			m = m2 + "|" + m // the message the signer is entitled to send comes last
+		}
 	}
 	if r.P(1, 10) {
 		payer = rng.Pick(r, []string{fmt.Sprintf("o%d", v), rng.Pick(r, accs)})
